@@ -982,6 +982,7 @@ def compare(ctx, cases, drv):
     # the rule by split_problem), so that no case has to be excluded because of that choice
     reqs = [model_request(c, [tuple(a) for a in r["atoms"]] if isinstance(r, dict) and r.get("atoms") is not None else None)[0] for c, r in zip(cases, res)]
     mres = drv.pbatch(reqs)
+    sql_items = []
     for c, req, r, m in zip(cases, reqs, res, mres):
         o = oracle(c)
         atoms, flt = equi_conjuncts(c["rule"]["ast"])
@@ -1024,6 +1025,15 @@ def compare(ctx, cases, drv):
             problems.append((c, "analysis outputs differ from Lean model BlockingAnalysis: " + bad, False))
             continue
         ctx.traces_validated += 1
+        sql_items.append((c, c01.records(c), [tuple(a) for a in r["atoms"]], backend_lt(c) == "two_dataset_link_only", ALIASES[0], r))
+    import time
+
+    from harness.props import c14_sql
+
+    # the regenerated counting SQL (Generated/BCountSql.lean) under Rel.eval vs what the engine returned for the real code
+    t_sql = time.time()
+    problems += [(c, "T-sql translation validation: " + w, False) for c, w in c14_sql.validate(ctx, sql_items, drv)]
+    ctx.count("timing_s_tsql_validation", "total", round(time.time() - t_sql, 2))
     return problems
 
 
@@ -1273,10 +1283,17 @@ def run(ctx: core.Ctx):
         "pairs are oriented by composite-id order; 70% of the cases carry an explicit source_dataset column, 30% leave the dataset names to Splink (argument order must then decide the orientation, as it does in predict())",
     ]
     errs = tarith.write({"calculate_cartesian"})
+    from harness.props import c14_sql
+
+    import time as _time
+
+    t_prep = _time.time()
+    sql_errs = c14_sql.prepare()  # Generated/BCountSql.lean: the counting SQL blocking_analysis.py emits now, as Rel terms (T-sql); Properties/C14Sql.lean is re-checked against it
+    ctx.notes.append(f"timing: T-sql capture + regeneration of Generated/BCountSql.lean {_time.time() - t_prep:.1f}s")
     ctx.lean = core.lean_check(PROP, ctx.thorough)
-    if errs:
+    if errs or sql_errs:
         ctx.lean.ok = False
-        ctx.lean.problems += ["T-arith: " + e for e in errs]
+        ctx.lean.problems += ["T-arith: " + e for e in errs] + ["T-sql: " + e for e in sql_errs]
     drv = core.Driver()
     tv_bad = translation_validation(ctx, drv)
     if ctx.replay:
